@@ -139,6 +139,10 @@ use std::ops::{Range, RangeFrom, RangeFull, RangeInclusive, RangeTo, RangeToIncl
 pub open spec fn sr_lo(r: SliceRange) -> int { r.start as int }
 pub open spec fn sr_hi(r: SliceRange, n: int) -> int { match r.len { Some(l) => r.start + l, None => n } }
 
+impl FromSpecImpl<Range<usize>> for SliceRange {
+    open spec fn obeys_from_spec() -> bool { true }
+    open spec fn from_spec(r: Range<usize>) -> Self { SliceRange { start: r.start, len: Some(if r.end >= r.start { (r.end - r.start) as usize } else { 0usize }) } }   // a..b selects [a, b)
+}
 impl FromSpecImpl<RangeFrom<usize>> for SliceRange {
     open spec fn obeys_from_spec() -> bool { true }
     open spec fn from_spec(r: RangeFrom<usize>) -> Self { SliceRange { start: r.start, len: None } }   // a.. selects [a, n)
@@ -152,6 +156,8 @@ impl FromSpecImpl<RangeTo<usize>> for SliceRange {
     open spec fn from_spec(r: RangeTo<usize>) -> Self { SliceRange { start: 0, len: Some(r.end) } }   // ..b selects [0, b)
 }
 
+//@ item sim/elvis-core/src/message/slice_range.rs :: impl From<Range<usize>> for SliceRange id=SliceRange.from_Range props=C07
+//@ end
 //@ item sim/elvis-core/src/message/slice_range.rs :: impl From<RangeFrom<usize>> for SliceRange id=SliceRange.from_RangeFrom props=C07
 //@ end
 //@ item sim/elvis-core/src/message/slice_range.rs :: impl From<RangeFull> for SliceRange id=SliceRange.from_RangeFull props=C07
@@ -163,7 +169,8 @@ impl FromSpecImpl<RangeTo<usize>> for SliceRange {
 // ---------------------------------------------------------------------------
 // message.rs
 // ---------------------------------------------------------------------------
-//@ item sim/elvis-core/src/message.rs :: struct Message strip-attrs
+//@ item sim/elvis-core/src/message.rs :: struct Message
+//@ rewrite `#\[derive\(Clone, Default\)\]` => `#[verifier::allow(autoderive_clone_without_spec)] #[derive(Clone, Default)]` ## silences the Verus note that the derived Clone gets no spec
 //@ rewrite `(\n\s*)chunks: VecDeque<Chunk>,` => `\1pub chunks: VecDeque<Chunk>,` ## visibility only
 //@ rewrite `(\n\s*)len: usize,` => `\1pub len: usize,` ## visibility only
 //@ end
